@@ -33,7 +33,7 @@ def link_plan(cfg, timeout_ticks):
     return link
 
 
-def run_recv(seed, stream, cfg, res=None, peer_extra=None):
+def run_recv(seed, stream, cfg, res=None, peer_extra=None, side=None, policy=None, choices=None):
     """stream: bytes the server sends right behind its 101 response (same write).
     cfg keys: api, timeout (ticks|None), fire_cont, skip_utf8, end ('eof'|'reset'|'silence'),
               cuts, gaps, sizes, read_caps, accept, max_calls, max_timeouts.
@@ -64,7 +64,9 @@ def run_recv(seed, stream, cfg, res=None, peer_extra=None):
         peer_cfg["script"] = [{"t": 0, "end": end}]
     if peer_extra:
         peer_cfg.update(peer_extra)
-    w, peers = std_world(seed=seed, peer_cfg=peer_cfg, link=link, sock=sock,
+    if cfg.get("send_eagain"):
+        sock["send_eagain"] = [int(x) for x in cfg["send_eagain"]]
+    w, peers = std_world(seed=seed, peer_cfg=peer_cfg, link=link, sock=sock, policy=policy, choices=choices,
                          step_cap=int(cfg.get("step_cap", 400_000)))
     max_calls = int(cfg.get("max_calls", 64))
     total_k = sum(int(v) for v in dict(cfg.get("gaps", {})).values())
@@ -88,6 +90,11 @@ def run_recv(seed, stream, cfg, res=None, peer_extra=None):
         except BaseException as e:  # noqa
             obs.append(["connect_exc", exc_name(e)])
             ok = False
+        side_thread = None
+        if ok and side is not None:
+            if policy and policy.get("kind") in ("prob", "pct", "at"):
+                w.k.start_tracing()
+            side_thread = side(w, c)
         if ok:
             sock_obj = c.sock
             if api == "recv":
@@ -124,6 +131,13 @@ def run_recv(seed, stream, cfg, res=None, peer_extra=None):
                 calls += 1
                 obs.append(["ret", obs_value(v)])
                 consumed_after.append(sock_obj.consumed)
+        if side_thread is not None:
+            try:
+                side_thread.join()
+            except SimAbort:
+                pass
+        if w.k.tracing:
+            w.k.stop_tracing()
         peer = peers[0] if peers else None
         out = {
             "obs": obs, "consumed_after": consumed_after, "timeouts": timeouts, "bad_after_timeout": bad, "calls": calls,
